@@ -98,11 +98,11 @@ def batch_script(draw):
     return ''.join(parts)
 
 
-def any_text(tier='quick', weights=(3, 2, 2, 3, 2, 2, 1, 2, 1)):
+def any_text(tier='quick', weights=(3, 2, 2, 3, 2, 2, 1, 2, 1, 2)):
     from gen import proc
     quick = tier == 'quick'
     srcs = [chars.text(quick), soup.soup(), soup.structured_text(), grammar.rendered_script(3), damaged_script(),
-            proc.rendered_script(), corpus_mutation(), batch_script(), soup.comment_led()]
+            proc.rendered_script(), corpus_mutation(), batch_script(), soup.comment_led(), soup.dictionary_soup()]
     pool = []
     for s, w in zip(srcs, weights):
         pool.extend([s] * w)
